@@ -23,16 +23,22 @@ def _real_seq(conn, dict_cursor: bool, ops: list[str]) -> list[str]:
 
     def enc_row(r):
         if dict_cursor:
-            assert list(r.keys()) == ["X"], r
-            return r["X"]
-        assert isinstance(r, tuple) and len(r) == 1, r
-        return r[0]
+            assert len(r) == 1, r
+            v = next(iter(r.values()))
+        else:
+            assert isinstance(r, tuple) and len(r) == 1, r
+            v = r[0]
+        return 900 if v == "Statement executed successfully." else v
 
     for op in ops:
         try:
             k = op[0]
             if k == "x":
                 cur.execute(f"select x from t where x < {int(op[1:])} order by x")
+                out.append("u")
+            elif k == "y":
+                # statements answering with one status row: a nop_regexes match (900) / an INSERT of one row (1)
+                cur.execute("call some_proc(1)" if op == "y900" else "insert into t2 values (5)")
                 out.append("u")
             elif k == "o":
                 r = cur.fetchone()
@@ -60,17 +66,23 @@ def _worker(shard):
     import fakesnow
     import snowflake.connector
     res = []
-    with fakesnow.patch():
+    with fakesnow.patch(nop_regexes=["^CALL "]):
         conn = snowflake.connector.connect(database="db1", schema="s1")
         c = conn.cursor()
         c.execute("create table t (x int)")
+        c.execute("create table t2 (x int)")
         c.execute("insert into t values " + ",".join(f"({i})" for i in range(MAXROWS + 1)))
         for kind, payload in shard:
-            if kind == "seq":
-                dict_cursor, ops = payload
-                res.append(_real_seq(conn, dict_cursor, ops))
-            else:
-                res.append(_real_shape(conn, payload))
+            try:
+                if kind == "seq":
+                    dict_cursor, ops = payload
+                    res.append(_real_seq(conn, dict_cursor, ops))
+                elif kind == "reexec":
+                    res.append(_real_reexec(conn, payload))
+                else:
+                    res.append(_real_shape(conn, payload))
+            except Exception as e:  # an exception where the property promises a value is an observation, not a crash
+                res.append({"exception": f"{type(e).__name__}: {e}"})
     return res
 
 
@@ -115,7 +127,14 @@ def _cases(chk) -> list:
     chk.extra["exhaustive_part"] = f"all sequences x<n>·{{{','.join(FETCH)}}}^≤{maxlen} for n=0..{MAXROWS}: {len(seqs)}"
     # random long sequences with re-executes in the middle
     nrand = 1500 if chk.tier == "quick" else 40000
-    alphabet = FETCH + ["m4", "m5", "m7", "s4", "s5"] + [f"x{n}" for n in range(MAXROWS + 1)]
+    alphabet = FETCH + ["m4", "m5", "m7", "s4", "s5", "y900", "y1"] + [f"x{n}" for n in range(MAXROWS + 1)]
+    # every fetch/arraysize pair between a result and a following one-row status statement (nop match / INSERT)
+    for n in (0, 2, 5):
+        for y in ("y900", "y1"):
+            for L in range(0, 3):
+                for t in itertools.product(FETCH, repeat=L):
+                    for t2 in (["o", "o"], ["a", "o"], ["m2", "a"]):
+                        seqs.append([f"x{n}", *t, y, *t2])
     for _ in range(nrand):
         L = rnd.randint(5, 30)
         seqs.append([rnd.choice(alphabet) for _ in range(L)])
@@ -128,12 +147,73 @@ def _cases(chk) -> list:
         for names in itertools.product(range(len(NAME_POOL)), repeat=L):
             for nrows in (0, 1, 3):
                 cases.append(("shape", ([NAME_POOL[i][0] for i in names], nrows, [NAME_POOL[i][1] for i in names])))
+    # re-executing the same SQL text after the result shape was changed through another cursor
+    for ddl in REEXEC_DDL:
+        for dict_cursor in (False, True):
+            for fetch_first in (False, True):
+                cases.append(("reexec", (ddl, dict_cursor, fetch_first)))
     return cases
+
+
+REEXEC_DDL = {
+    "add-column": ("alter table tv add column c int", ["A", "B", "C"], [1, 2, None]),
+    "drop-column": ("alter table tv drop column b", ["A"], [1]),
+    "rename-column": ('alter table tv rename column b to "b b"', ["A", "b b"], [1, 2]),
+    "replace-table": ("create or replace table tv (z int, y int, x int)", ["Z", "Y", "X"], None),
+}
+
+
+def _real_reexec(conn, payload):
+    from snowflake.connector.cursor import DictCursor, SnowflakeCursor
+    ddl, dict_cursor, fetch_first = payload
+    other = conn.cursor()
+    other.execute("create or replace table tv (a int, b int)")
+    other.execute("insert into tv values (1, 2)")
+    cur = conn.cursor(DictCursor if dict_cursor else SnowflakeCursor)
+    cur.execute("select * from tv")
+    first_desc = [d.name for d in cur.description]
+    if fetch_first:
+        cur.fetchall()
+    other.execute(REEXEC_DDL[ddl][0])
+    cur.execute("select * from tv")
+    desc = [d.name for d in cur.description]
+    rows = cur.fetchall()
+    if dict_cursor:
+        keys = [list(r.keys()) for r in rows]
+        vals = [list(r.values()) for r in rows]
+    else:
+        keys, vals = None, [list(r) for r in rows]
+    return {"first_desc": first_desc, "desc": desc, "keys": keys, "vals": vals}
+
+
+def _check_reexec(chk, payload, real):
+    ddl, dict_cursor, fetch_first = payload
+    case = {"kind": "reexec", "ddl": ddl, "dict_cursor": dict_cursor, "fetch_first": fetch_first}
+    chk.case(("reexec", ddl, dict_cursor, fetch_first))
+    chk.count("reexec:" + ddl)
+    _, names, vals = REEXEC_DDL[ddl]
+    bad = None
+    if "exception" in real:
+        bad = f"raised {real['exception']}"
+    elif real["first_desc"] != ["A", "B"]:
+        bad = f"description of the first result is {real['first_desc']}"
+    elif real["desc"] != names:
+        bad = f"description after re-executing the same SQL names {real['desc']}, the new result has columns {names}"
+    elif vals is not None and real["vals"] != [vals]:
+        bad = f"rows after re-execute are {real['vals']}, expected {[vals]}"
+    elif dict_cursor and vals is not None and real["keys"] != [names]:
+        bad = f"DictCursor keys {real['keys']} ≠ description names {names}"
+    if bad:
+        chk.violation(f"`select * from tv`, then `{REEXEC_DDL[ddl][0]}` on another cursor, then the same select again: {bad}", case,
+                      broken="C05_replace / C05_dict_keys (a new execute replaces the old result set completely)")
 
 
 def _check_seq(chk, payload, real, reply):
     dict_cursor, ops = payload
     case = {"kind": "seq", "dict_cursor": dict_cursor, "ops": ops}
+    if isinstance(real, dict) and "exception" in real:
+        chk.violation(f"fetch sequence {ops} raised {real['exception']}", case, broken="C05 correspondence (harness-level exception)")
+        return
     spec, impl = dec_list(reply.get("spec", "")), dec_list(reply.get("impl", ""))
     fetches_after_exec = any(o[0] in "oma" for o in ops[1:]) and any(o[0] == "x" and o != "x0" for o in ops)
     chk.case((dict_cursor, tuple(ops)), nontrivial=fetches_after_exec)
@@ -154,6 +234,11 @@ def _check_shape(chk, payload, real, reply):
     case = {"kind": "shape", "written": written, "nrows": nrows, "norm": norm}
     width = len(written)
     distinct = len(set(norm)) == len(norm)
+    if "exception" in real:
+        chk.case(("shape", tuple(written), nrows))
+        chk.violation(f"`select {', '.join('.. as ' + w for w in written)}` over {nrows} rows, then description/rowcount/fetch_pandas_all/"
+                      f"DictCursor fetch: raised {real['exception']}", case, broken="C05 (fetch_pandas_all / rowcount agree with the rows)")
+        return
     chk.case(("shape", tuple(written), nrows), nontrivial=nrows > 0 and width > 1)
     chk.count("shape:" + ("distinct" if distinct else "repeated") + f":w{width}")
     tidx = [int(x) for x in reply["tuple"].split(",")]
@@ -186,6 +271,8 @@ def _lines(cases):
     for kind, payload in cases:
         if kind == "seq":
             lines.append("fetch\trun\t" + enc_list(payload[1]))
+        elif kind == "reexec":
+            lines.append("fetch\trow\t" + enc_list([enc_str(n) for n in REEXEC_DDL[payload[0]][1]]))
         else:
             lines.append("fetch\trow\t" + enc_list([enc_str(n) for n in payload[2]]))
     return lines
@@ -202,7 +289,10 @@ def run(chk) -> None:
     replies = [common.batch(_lines(s)) for s in shards]
     for shard, rs, ms in zip(shards, reals, replies):
         for (kind, payload), real, reply in zip(shard, rs, ms):
-            (_check_seq if kind == "seq" else _check_shape)(chk, payload, real, reply)
+            if kind == "reexec":
+                _check_reexec(chk, payload, real)
+            else:
+                (_check_seq if kind == "seq" else _check_shape)(chk, payload, real, reply)
     chk.samples = [{"ops": s[1][1], "dict": s[1][0]} for s in cases if s[0] == "seq"][200:204] + \
                   [{"shape": s[1][0], "rows": s[1][1]} for s in cases if s[0] == "shape"][40:42]
     chk.exhaustive = True
@@ -217,6 +307,9 @@ def replay(chk, case) -> None:
         real = _worker([("seq", payload)])[0]
         reply = common.batch(_lines([("seq", payload)]))[0]
         _check_seq(chk, payload, real, reply)
+    elif case["kind"] == "reexec":
+        payload = (case["ddl"], case["dict_cursor"], case["fetch_first"])
+        _check_reexec(chk, payload, _worker([("reexec", payload)])[0])
     else:
         payload = (case["written"], case["nrows"], case["norm"])
         real = _worker([("shape", payload)])[0]
